@@ -231,6 +231,27 @@ Theorem C09_g_last_after_commit :
 Proof. exact g_last_after_commit. Qed.
 Print Assumptions C09_g_last_after_commit.
 
+(* the timestamp that counts is the ARRIVED commit's own: a commit that reaches the ring and is stored there (appended, inserted,
+   or merged by min-distance into the previous slot, which keeps the previous timestamp) raises g_last to max(ts, g_last) *)
+Theorem C09_stored_commit_raises_last :
+  forall cf now s c g t p off order ts cl,
+    get s c = Some cl -> too_old cf now ts = false -> cf_accept cf g = true -> snd (get_broker_offset cl t p) <> 0 ->
+    commit_stored (commit_ring cf cl g t p) order = true ->
+    exists parts,
+      step cf now s (SetConsumerOffset c g t p off order ts) =
+      Done (set s c (mkCluster (cl_broker cl)
+                      (set (cl_consumer cl) g (mkCgroup parts (Z.max ts (g_last (grp_or_empty cl g))))))) RNone /\
+      ts <= Z.max ts (g_last (grp_or_empty cl g)).
+Proof. exact stored_commit_raises_last. Qed.
+Print Assumptions C09_stored_commit_raises_last.
+
+Example C09_ex_merged_commit_counts :
+  (exists cl grp, get mg_state 1 = Some cl /\ get (cl_consumer cl) 1 = Some grp /\
+     stored_ts grp = [1599999300] /\ g_last grp = 1600000000) /\
+  names (obs mg_cf 1601000 mg_state (FetchConsumer 1 1)) = [1] /\
+  obs mg_cf 1601001 mg_state (FetchConsumer 1 1) = Some RNil.
+Proof. exact merged_commit_example. Qed.
+
 Theorem C09_g_last_monotone :
   forall cf now s r s' rep c g cl grp cl' grp',
     step cf now s r = Done s' rep ->
